@@ -24,20 +24,29 @@ def mk_case(site, trap, dt, a, v, d, peaks, rtol):
     return Case(coq, rp, site, nontrivial=(len(a) >= 3 and any(x != 0 for x in a)), klass='%s/%s/%s' % (site, 'trap' if trap else 'rect', 'exact' if rtol == 0 else 'tol'))
 
 
-def impl_array(a, dt, trap):
+def impl_array(a, dt, trap, dtype=float):
+    """array-level call, checked for purity: the record (stored as float64, integers or float32: the integrals are those
+    of the same numbers) must not be modified, and a second call on the same array object must return the same series"""
     import eqsig
     from eqsig.displacements import calc_velo_and_disp_from_accel_arr
-    a = np.array(a, dtype=float)
-    a0 = a.copy()
-    v, d = calc_velo_and_disp_from_accel_arr(a, dt, trap=trap)
-    pk = [eqsig.im.calc_peak(a0), eqsig.im.calc_peak(v), eqsig.im.calc_peak(d)]
-    return np.array(v), np.array(d), pk
+    a = np.array(a, dtype=float).astype(dtype)
+    a0 = np.array(a, dtype=float)
+    r = core.guarded_pure(calc_velo_and_disp_from_accel_arr, a, dt, trap=trap)
+    if isinstance(r, ImplError):
+        raise RuntimeError(str(r))
+    v, d = r
+    pk = [eqsig.im.calc_peak(a0), eqsig.im.calc_peak(np.array(v, dtype=float)), eqsig.im.calc_peak(np.array(d, dtype=float))]
+    return np.array(v, dtype=float), np.array(d, dtype=float), pk
 
 
-def impl_object(a, dt):
+def impl_object(a, dt, dtype=float):
     import eqsig
-    s = eqsig.AccSignal(np.array(a, dtype=float), dt)
-    return np.array(s.velocity), np.array(s.displacement), [s.pga, s.pgv, s.pgd]
+    s = eqsig.AccSignal(np.array(a, dtype=float).astype(dtype), dt)
+    out = np.array(s.velocity, dtype=float), np.array(s.displacement, dtype=float), [s.pga, s.pgv, s.pgd]
+    s.generate_displacement_and_velocity_series(trap=False)     # must leave the record itself untouched
+    if not np.array_equal(np.array(s.values, dtype=float), np.array(a, dtype=float)):
+        raise RuntimeError('InputMutated: generate_displacement_and_velocity_series(trap=False) changed the object\'s record')
+    return out
 
 
 def impl_object_history(a, dt, how):
@@ -78,12 +87,14 @@ def gen(rng, tier):
             if not isinstance(r, ImplError):
                 a, r = r[3], r[:3]          # the model is given the object's current record
         elif k % 3 == 2:
-            r = guarded(impl_object, a, dt)
-            site, trap = 'AccSignal.velocity/displacement/pga/pgv/pgd', True
+            dty = [float, np.int64][(k // 3) % 2]
+            r = guarded(impl_object, a, dt, dty)
+            site, trap = 'AccSignal.velocity/displacement/pga/pgv/pgd' + ('' if dty is float else '[int record]'), True
         else:
             trap = (k % 3 == 0)
-            r = guarded(impl_array, a, dt, trap)
-            site = 'calc_velo_and_disp_from_accel_arr'
+            dty = [float, float, np.int64, np.float32][(k // 3) % 4]
+            r = guarded(impl_array, a, dt, trap, dty)
+            site = 'calc_velo_and_disp_from_accel_arr' + ('' if dty is float else '[%s record]' % np.dtype(dty).name)
         out.append((site, trap, dt, a, r, 0))
     for k in range(n_tol):
         n = gens.small_len(rng, 2, maxlen)
